@@ -14,3 +14,88 @@ Theorem Src_parser_parse_next_value : gen_pnv_understood = true ->
   forall fl line start_index, gen_parse_next_value fl line start_index = parse_next_value fl line start_index.
 Proof. exact gen_parse_next_value_eq. Qed.
 Print Assumptions Src_parser_parse_next_value.
+
+(* ---- the REST of parser.rs (builder B8): every function below parse_text is regenerated from the source on every
+   run (lib/gen/parser_gen.py -> generated/GenParserRest.v) and proved equal to the hand-written index-faithful model
+   (ParserIx.v; ParserIxFns.v for the functions ParserIx folds into their callers).  One flag per function: a function
+   the translator no longer understands makes only its own theorem vacuous.  The generated functions call the hand
+   versions of the other functions (each tied by its own theorem below). *)
+Require Import DS.Rs2vLib2 DS.ParserIxFns DS.ParserGenTie2.
+Require Import DSG.GenParserRest.
+
+Theorem Src_parser_parse_next_argument : gen_parse_next_argument_understood = true ->
+  forall cac line start_index,
+    gen_parse_next_argument cac line start_index
+    = ParserIx.parse_next_value (if cac then fl_rearg else fl_arg) line start_index.
+Proof. exact gen_parse_next_argument_eq. Qed.
+Print Assumptions Src_parser_parse_next_argument.
+
+Theorem Src_parser_parse_arguments_with_options : gen_parse_arguments_with_options_understood = true ->
+  forall cac line start_index,
+    gen_parse_arguments_with_options cac line start_index
+    = ParserIx.parse_arguments_with (if cac then fl_rearg else fl_arg) line start_index.
+Proof. exact gen_parse_arguments_with_options_eq. Qed.
+Print Assumptions Src_parser_parse_arguments_with_options.
+
+Theorem Src_parser_parse_arguments : gen_parse_arguments_understood = true ->
+  forall line start_index, gen_parse_arguments line start_index = ParserIx.parse_arguments line start_index.
+Proof. exact gen_parse_arguments_eq. Qed.
+Print Assumptions Src_parser_parse_arguments.
+
+Theorem Src_parser_reparse_arguments : gen_reparse_arguments_understood = true ->
+  forall line start_index,
+    gen_reparse_arguments line start_index = ParserIx.parse_arguments_with fl_rearg line start_index.
+Proof. exact gen_reparse_arguments_eq. Qed.
+Print Assumptions Src_parser_reparse_arguments.
+
+Theorem Src_parser_find_label : gen_find_label_understood = true ->
+  forall line start_index, gen_find_label line start_index = ParserIx.find_label line start_index.
+Proof. exact gen_find_label_eq. Qed.
+Print Assumptions Src_parser_find_label.
+
+(* the Rust function with its `&mut ScriptInstruction` parameter, for EVERY incoming instruction *)
+Theorem Src_parser_find_output_and_command_ins : gen_find_output_and_command_understood = true ->
+  forall line start_index ins,
+    gen_find_output_and_command line start_index ins = find_output_and_command_ins line start_index ins.
+Proof. exact gen_find_output_and_command_ins_eq. Qed.
+Print Assumptions Src_parser_find_output_and_command_ins.
+
+(* ... and against ParserIx.find_output_and_command, which returns (index, output, command): equal whenever the
+   incoming instruction has no output yet (the only caller passes a fresh ScriptInstruction with at most a label) *)
+Theorem Src_parser_find_output_and_command : gen_find_output_and_command_understood = true ->
+  forall line start_index ins, si_output ins = None ->
+    gen_find_output_and_command line start_index ins =
+    match ParserIx.find_output_and_command line start_index with
+    | IOk (i, o, c) =>
+        IOk (i, {| si_label := si_label ins; si_output := o;
+                   si_command := match c with Some _ => c | None => si_command ins end;
+                   si_arguments := si_arguments ins |})
+    | IErr e => IErr e
+    | IPanic => IPanic
+    end.
+Proof. exact gen_find_output_and_command_eq. Qed.
+Print Assumptions Src_parser_find_output_and_command.
+
+Theorem Src_parser_parse_pre_process_line : gen_parse_pre_process_line_understood = true ->
+  forall line start_index,
+    gen_parse_pre_process_line line start_index = ParserIx.parse_pre_process_line line start_index.
+Proof. exact gen_parse_pre_process_line_eq. Qed.
+Print Assumptions Src_parser_parse_pre_process_line.
+
+Theorem Src_parser_parse_command_line : gen_parse_command_line_understood = true ->
+  forall line start_index,
+    gen_parse_command_line line start_index = ParserIx.parse_command_line line start_index.
+Proof. exact gen_parse_command_line_eq. Qed.
+Print Assumptions Src_parser_parse_command_line.
+
+Theorem Src_parser_parse_line : gen_parse_line_understood = true ->
+  forall s, gen_parse_line s = ParserIx.parse_line s.
+Proof. exact gen_parse_line_eq. Qed.
+Print Assumptions Src_parser_parse_line.
+
+(* the line loop: 1-based line numbers, the instruction of every line, the splice of the pre-processor's output *)
+Theorem Src_parser_parse_lines : gen_parse_lines_understood = true ->
+  forall inc src text,
+    gen_parse_lines inc src text = ParserIx.parse_lines_from inc src 1 (lines text).
+Proof. exact gen_parse_lines_eq. Qed.
+Print Assumptions Src_parser_parse_lines.
